@@ -229,6 +229,22 @@ def check_registrations(_):
             out.append(('%s(callCellValue, f) on three parsers, off() on the third, then A1+1 on the first two' % api, None, repr([want, want]), repr(got)))
         if outcome(z, 'A1+1') != outcome(hotxlfp.Parser(), 'A1+1'):
             out.append(('%s() then off() on one parser' % api, None, repr(outcome(hotxlfp.Parser(), 'A1+1')), repr(outcome(z, 'A1+1'))))
+    # cell and range references: what one parser is asked to read (reversed corners, $ markers, case) leaves the cells the
+    # other one reads alone - each listener answers from the coordinates it is handed
+    def coords_sheet(q):
+        q.on('callCellValue', lambda cell, done: done(100 * (cell.row.index + 1) + cell.col.index + 1))
+        q.on('callRangeValue', lambda s, e, done: done([[100 * (r + 1) + c + 1 for c in range(s.col.index, e.col.index + 1)]
+                                                        for r in range(s.row.index, e.row.index + 1)]))
+    u, w = hotxlfp.Parser(), hotxlfp.Parser()
+    coords_sheet(u)
+    coords_sheet(w)
+    for f in ('SUM(B2:A1)', 'SUM(C3:B2)', 'SUM($C$1:a3)', 'SUM(A3:C1)', 'b2+$B$2', 'SUM(D4:D4)'):
+        outcome(u, f)
+    for f, want in (('B2*10', 2020), ('A1+C3', 101 + 303), ('SUM(A1:B2)', 101 + 102 + 201 + 202), ('C1-A3', 103 - 301), ('SUM(B2:A1)', 101 + 102 + 201 + 202),
+                    ('D4', 404), ('$b$2', 202)):
+        got = outcome(w, f)
+        if got != (('I', want), None):
+            out.append(('cells read on one parser after reversed / marked ranges were read on another: %s' % f, None, repr((('I', want), None)), repr(got)))
     if b.variables is a.variables or b.functions is a.functions or b._e is a._e:
         out.append(('binding tables shared between parsers', None, 'distinct objects', 'shared'))
     return out
